@@ -1019,6 +1019,26 @@ pub fn c05(ctx: &mut Ctx) -> String {
             }
         }
     }
+    // the unlimited budget with a reachable threshold, on one thread and on several
+    for i in 0..(if ctx.thorough { 120u64 } else { 18 }) {
+        if ctx.out_of_time() {
+            break;
+        }
+        let (t, fam) = small_game(ctx, i, 120);
+        ctx.stat(&format!("family_{}", fam));
+        let method = ["F", "S", "E"][(i % 3) as usize];
+        let params = Params::presets()[((i / 3) % 5) as usize].1;
+        let seed = ctx.rng.next() >> 12;
+        let g0 = build(&t).unwrap();
+        let c0 = Cfg { method: method.into(), params, iters: ctx.rng.range(1, 6), thr: 0.0, threads: 1, target: None, seed };
+        let b = match run_lib(&g0, &c0) {
+            Outcome::Ok(r) if r.total.is_finite() && r.total > 1e-9 => r.total,
+            _ => continue,
+        };
+        ctx.stat("budget_u64_max");
+        let cfg = Cfg { method: method.into(), params, iters: u64::MAX, thr: 1.5 * b, threads: [1usize, 2, 3][((i / 3) % 3) as usize], target: None, seed };
+        case_solve(ctx, &solve_case(&t, &cfg, &["wellformed"]));
+    }
     // the soft-max fallback at its extremes: every positive regret forgotten at once, weights of
     // large magnitude, payoffs of size one and of size one thousand
     for i in 0..(if ctx.thorough { 240u64 } else { 36 }) {
@@ -1058,7 +1078,7 @@ fn threads_check(ctx: &mut Ctx, methods: &[&str]) {
         let method = methods[(i as usize) % methods.len()];
         let (pn, params) = Params::pick(&mut ctx.rng);
         ctx.stat(&format!("params_{}", pn));
-        let mut iters = *ctx.rng.pick(&[1u64, 2, 2, 3, 3, 4, 4, 6, 10, 25]);
+        let mut iters = *ctx.rng.pick(&[1u64, 2, 2, 3, 3, 4, 4, 6, 10, 25, 0]);
         let mut threads = *ctx.rng.pick(&[2usize, 2, 3, 4, 8, 16]);
         if i % 12 == 5 {
             // schedule pressure: many tasks below one opponent infoset, more workers, longer runs
@@ -1096,6 +1116,22 @@ fn threads_check(ctx: &mut Ctx, methods: &[&str]) {
         let thr = if exact_zero { 0.0 } else if ctx.rng.chance(0.2) { 0.05 * t.range() } else { 0.0 };
         let seed = ctx.rng.next() >> 12;
         let params = if exact_zero { *ctx.rng.pick(&[Params::dcfr(), Params::cfr_plus(), Params::lcfr()]) } else { params };
+        // the unlimited budget (what the documentation recommends together with a threshold, and what
+        // the CLI passes for -t 0) with a threshold the run reaches
+        let (iters, thr) = if i % 12 == 9 && t.size() <= 200 {
+            let g0 = build(&t).unwrap();
+            let k = ctx.rng.range(1, 6);
+            let c0 = Cfg { method: method.into(), params, iters: k, thr: 0.0, threads: 1, target: None, seed };
+            match run_lib(&g0, &c0) {
+                Outcome::Ok(r) if r.total.is_finite() && r.total > 1e-9 => {
+                    ctx.stat("budget_u64_max");
+                    (u64::MAX, 1.5 * r.total)
+                }
+                _ => (iters, thr),
+            }
+        } else {
+            (iters, thr)
+        };
         let cfg = Cfg { method: method.into(), params, iters, thr, threads, target, seed };
         if i < 2 {
             sample_case(ctx, &t, fam, &cfg);
@@ -1240,6 +1276,34 @@ pub fn c08(ctx: &mut Ctx) -> String {
                     ctx.fail_prop(&json!({"op": "default-params", "tree": t.to_json()}), "omitting the parameters differs from dcfr".to_string());
                 }
             }
+        }
+    }
+    // payoffs in the subnormal range (finite, so the game is accepted): every cumulative regret is a
+    // subnormal number, and a positive subnormal sum of regrets is a positive sum (one thread only:
+    // subnormal numbers carry few bits, so a different summation order is a different result)
+    for i in 0..(if ctx.thorough { 160u64 } else { 20 }) {
+        if ctx.out_of_time() {
+            break;
+        }
+        let (t, _) = small_game(ctx, i, 100);
+        let mx = {
+            let mut v = Vec::new();
+            t.payoffs(&mut v);
+            v.iter().fold(0.0f64, |a, b| a.max(b.abs()))
+        };
+        if !(mx > 0.0) {
+            continue;
+        }
+        // an exact power of two that brings the largest payoff to about 1e-315
+        let e = (1e-315f64 / mx).log2().floor() as i32;
+        let t = t.map_payoffs(&|p| p * 2f64.powi(e / 2) * 2f64.powi(e - e / 2));
+        ctx.stat("family_subnormal-payoffs");
+        let method = ["F", "S", "E"][(i % 3) as usize];
+        let params = Params::presets()[((i / 3) % 5) as usize].1;
+        let seed = ctx.rng.next() >> 12;
+        for tt in [1u64, 3, 8, 21] {
+            let cfg = Cfg { method: method.into(), params, iters: tt, thr: 0.0, threads: 1, target: None, seed };
+            case_solve(ctx, &solve_case(&t, &cfg, &["corr"]));
         }
     }
     // the soft-max fallback in earnest: matrix games with payoffs of size ten, every positive regret
@@ -1472,9 +1536,17 @@ pub fn c10(ctx: &mut Ctx) -> String {
         case_solve(ctx, &solve_case(&t, &cfg, asserts));
     }
     // the production samplers, observed: frequencies follow the declared weights (5 sigma)
-    let reps = if ctx.thorough { 20 } else { 4 };
+    let reps = if ctx.thorough { 20 } else { 6 };
     for r in 0..reps {
-        let w = [1.0 + ctx.rng.below(3) as f64, 1.0 + ctx.rng.below(3) as f64, 1.0];
+        // (two of the vectors carry a declared weight that is positive but vanishes beside the others:
+        // the outcome exists, its probability is exactly zero, and the indices of the others stay)
+        let w = if r % 6 == 4 {
+            [1e-320, 1e300, 2e300]
+        } else if r % 6 == 5 {
+            [1e300, 1e-320, 1e300]
+        } else {
+            [1.0 + ctx.rng.below(3) as f64, 1.0 + ctx.rng.below(3) as f64, 1.0]
+        };
         let t = T::Chance(
             Some(0),
             w.iter().map(|x| (*x, T::Player(true, 0, vec![(0, T::Term(1.0)), (1, T::Term(-1.0))]))).collect(),
